@@ -575,4 +575,6 @@ Qed.
 Theorem optimize_sound_all cancun e e' :
   wf e -> optimize cancun e = Ok e' -> equiv_val SM e e' /\ wf e'.
 Proof. apply (optimize_sound_gen SM OK merges_sound). Qed.
+Theorem optimize_raised_all cancun e : wf e -> optimize cancun e = Err Raised -> Blame SM e.
+Proof. apply (optimize_raised_gen SM OK merges_sound). Qed.
 End MS.
